@@ -143,6 +143,20 @@ def check_summary(st, case, sc, sh, bad, builder):
             return
         ents = list(summ)
         exp = case["entries"]
+        # the summary does not depend on interpreter-wide display settings of the application (sys.tracebacklimit)
+        for lim in (1, 0):
+            sys.tracebacklimit = lim
+            try:
+                again = list(st.as_stdlib_summary(show_contexts=sc, show_hidden_frames=sh, capture_locals=capture))
+                flat_lim = st.format_flat(show_contexts=sc) if sh is False else None
+            finally:
+                del sys.tracebacklimit
+            if [(e.filename, e.lineno, e.name) for e in again] != [(e.filename, e.lineno, e.name) for e in ents]:
+                bad.append("%s: with sys.tracebacklimit = %d the summary has %d entries instead of %d" % (tag, lim, len(again), len(ents)))
+                return
+            if flat_lim is not None and flat_lim != st.format_flat(show_contexts=sc):
+                bad.append("%s: with sys.tracebacklimit = %d format_flat() changes" % (tag, lim))
+                return
         if len(ents) != len(exp):
             bad.append("%s: %d entries, spec %d (%s)" % (tag, len(ents), len(exp), exp[:8]))
             return
